@@ -121,11 +121,20 @@ Proof. exact tp_copy. Qed.
 Theorem C17_copy_binarize : forall copy s, wf s -> honours_copy s (binarize_prog copy s) copy (binarize (rd s)).
 Proof. exact binarize_copy. Qed.
 
-Theorem C17_copy_normalize : forall n copy s, wf s -> honours_copy s (normalize_prog n copy s) copy (normalize n (rd s)).
-Proof. exact normalize_copy. Qed.
+(* normalize / invert (after /repo e4e2655, 46a4b71): [flt] = the argument's dtype is floating point.  copy=False on a
+   non-float array raises BCTParamError before anything is touched; in every other case the contract holds, and a non-float
+   argument is promoted into a FRESH float object (W.astype(float)) that receives the result *)
+Theorem C17_copy_normalize : forall n flt copy s, wf s ->
+  (flt = false -> copy = false -> normalize_prog_d n flt copy s = RaiseParam) /\
+  (flt = true \/ copy = true ->
+     exists s', normalize_prog_d n flt copy s = Done s' /\ honours_copy s s' copy (normalize n (rd s))).
+Proof. exact normalize_copy_d. Qed.
 
-Theorem C17_copy_invert : forall copy s, wf s -> honours_copy s (invert_prog copy s) copy (invert (rd s)).
-Proof. exact invert_copy. Qed.
+Theorem C17_copy_invert : forall flt copy s, wf s ->
+  (flt = false -> copy = false -> invert_prog_d flt copy s = RaiseParam) /\
+  (flt = true \/ copy = true ->
+     exists s', invert_prog_d flt copy s = Done s' /\ honours_copy s s' copy (invert (rd s))).
+Proof. exact invert_copy_d. Qed.
 
 (* weight_conversion: the command string (as the list of its character codes, [codes "binarize"] = [98;105;...]) selects
    the utility, anything else raises (None), `copy` is handed on *)
@@ -137,12 +146,15 @@ Theorem C17_wc_dispatch : forall n W wcm,
      weight_conversion_str n W wcm = None).
 Proof. exact wc_dispatch. Qed.
 
-Theorem C17_copy_weight_conversion : forall n wcm copy s, wf s ->
+Theorem C17_copy_weight_conversion : forall n wcm flt copy s, wf s ->
   match weight_conversion_str n (rd s) wcm with
-  | None => wc_prog n wcm copy s = None
-  | Some R => exists s', wc_prog n wcm copy s = Some s' /\ honours_copy s s' copy R
+  | None => wc_prog_d n wcm flt copy s = RaiseNotImplemented
+  | Some R =>
+      (wcm <> codes "binarize" -> flt = false -> copy = false -> wc_prog_d n wcm flt copy s = RaiseParam) /\
+      (wcm = codes "binarize" \/ flt = true \/ copy = true ->
+         exists s', wc_prog_d n wcm flt copy s = Done s' /\ honours_copy s s' copy R)
   end.
-Proof. exact wc_copy. Qed.
+Proof. exact wc_copy_d. Qed.
 
 (* contrast (logtransform / autofix, not named by C17): a utility whose last statement REBINDS the name does not leave
    its result in the argument when copy=False *)
@@ -187,13 +199,17 @@ Example C17_copy_nonvacuous :
   wf (init W) /\
   (exists s, tp_prog sort_desc 3 (1 # 2) true (init W) = Some s /\ loc s = 1%nat /\ hp s 0%nat 0%nat 0%nat = 7 /\ rd s 0%nat 0%nat = 0) /\
   (exists s, tp_prog sort_desc 3 (1 # 2) false (init W) = Some s /\ loc s = 0%nat /\ hp s 0%nat 0%nat 0%nat = 0) /\
-  wc_prog 3 (codes "foo") true (init W) = None /\
-  (exists s, wc_prog 3 (codes "lengths") false (init W) = Some s /\ loc s = 0%nat /\ Qred (hp s 0%nat 0%nat 1%nat) = 1 # 3).
+  wc_prog_d 3 (codes "foo") true true (init W) = RaiseNotImplemented /\
+  wc_prog_d 3 (codes "lengths") false false (init W) = RaiseParam /\
+  (exists s, wc_prog_d 3 (codes "lengths") false true (init W) = Done s /\ loc s = 1%nat /\ hp s 0%nat 0%nat 1%nat = 3 /\
+             Qred (rd s 0%nat 1%nat) = 1 # 3) /\
+  (exists s, wc_prog_d 3 (codes "lengths") true false (init W) = Done s /\ loc s = 0%nat /\ Qred (hp s 0%nat 0%nat 1%nat) = 1 # 3).
 Proof.
   cbv zeta. split; [unfold wf, init; cbn [loc nxt]; apply Nat.lt_0_1|].
   split; [eexists; split; [reflexivity|vm_compute; repeat split; reflexivity]|].
   split; [eexists; split; [reflexivity|vm_compute; repeat split; reflexivity]|].
-  split; [reflexivity|].
+  split; [reflexivity|]. split; [reflexivity|].
+  split; [eexists; split; [reflexivity|vm_compute; repeat split; reflexivity]|].
   eexists; split; [reflexivity|vm_compute; repeat split; reflexivity].
 Qed.
 
